@@ -29,8 +29,14 @@ C = {
          "statement-silent zone (1/True/1.0, regex vs non-string) excluded by the `typed` precondition"),
  "C05": (None, "competing flows through the real interpreter with every tie-break outcome enumerated (random.choice scripted) + contract monitor on "
                "_resolve_action_conflicts: one most-specific action per loop, losers fail, identical actions shared, loops independent", "bounds in evidence"),
- "C06": (None, "flow / action lifetimes through the real interpreter with a passive monitor on _abort_flow/_finish_flow/start requests: children stopped, exactly one "
-               "Stop per unfinished unshared action, activated flows restarted while an activator runs", "bounds in evidence"),
+ "C06": ("the step at which a flow that ends lets go of one of its actions (body of the action loop of _abort_flow and of _finish_flow, block "
+         "contracts; Action.stop_event): an action that is STARTING / STARTED and held by this flow alone gets exactly one event, its own Stop "
+         "(`Stop<name>`, same action_uid); one that another flow still holds only loses a reference (no event, status kept); one that was never "
+         "started, is already stopping or has finished gets no event and is not touched - for every action object and every count",
+         "flow / action lifetimes through the real interpreter with a passive monitor on _abort_flow/_finish_flow/start requests: children stopped, exactly one "
+         "Stop per unfinished unshared action, activated flows restarted while an activator runs",
+         "A-UMIM: _generate_umim_event(state, e) appends to state.outgoing_events and lets only the action registered under e.action_uid process the "
+         "event (assumed frame); the loops over children / actions, the recursion over the flow hierarchy, activation and restart are bounded only"),
  "C07": ("normalize_element_groups / flatten_or_group: for every and/or group and every valuation of the leaves the result is one `or` of `and`s of leaves and is "
          "satisfied only if the original formula is (unbounded depth/width)",
          "converse direction; `match <group>` completes at exactly the first satisfying event (real interpreter, all short event sequences)",
